@@ -406,6 +406,15 @@ def intel_variant(sp, opt):
         if not terms:
             return s + "[" + sp_ + number(disp, True) + sp_ + "]"
         if d is None:
+            z = opt.get("zero")
+            if z and unambiguous:
+                # an explicit zero displacement denotes the same operand as none
+                body = plus.join(terms)
+                if z == 1:
+                    return s + "[" + sp_ + body + plus + "0" + sp_ + "]"
+                if z == 3:
+                    return s + "[" + sp_ + "0" + plus + body + sp_ + "]"
+                return s + ("0" if z == 2 else "0x0") + "[" + sp_ + body + sp_ + "]"
             return s + "[" + sp_ + plus.join(terms) + sp_ + "]"
         if opt.get("num32") is None:
             sign = "-" if disp < 0 else "+"
@@ -446,6 +455,10 @@ REWRITES = {
     "memory-term-order": {"memorder": 1},
     "scale-before-index": {"memorder": 2},
     "displacement-outside-brackets": {"memorder": 3},
+    "zero-displacement-last": {"zero": 1},
+    "zero-displacement-outside-brackets": {"zero": 2},
+    "zero-displacement-first": {"zero": 3},
+    "zero-displacement-outside-brackets-hex": {"zero": 4},
     "percent-prefix": {"pct": True},
     "st-as-st(0)": {"st": "st(0)"},
     "ST-uppercase": {"st": "ST", "regcase": "upper"},
